@@ -77,7 +77,7 @@ def rows_to_tab(rows, tags):
     return Tab([Slot(z3.BoolVal(True), None, {t.qualified_name: zint(r[t]) for t in tags}) for r in rows], cols, False)
 
 
-def make_processor(db, log):
+def make_processor(db, log, lazy=False):
     from lsst.daf.relation import Processor, iteration, sql
 
     class EvaluatingProcessor(Processor):
@@ -86,6 +86,9 @@ def make_processor(db, log):
             if isinstance(source.engine, sql.Engine):
                 tab = db.run(source.engine.to_executable(source))
                 rows = bridge(tab, list(source.columns))
+            elif lazy and materialize_as is None and not isinstance(destination, sql.Engine):
+                # "appropriate for caching" is only asked of the payload when a materialization follows: hand out the lazy iterable
+                return source.engine.execute(source)
             else:
                 rows = [dict(r) for r in source.engine.execute(source)]
             if isinstance(destination, sql.Engine):
